@@ -95,3 +95,13 @@ def permutations_and_renamings(rules, max_perms=None):
 def short(x, n=200):
     s = repr(x)
     return s if len(s) <= n else s[:n] + "..."
+
+
+def fclose(have, want, rel=1e-6, abs_=1e-9):
+    """Float comparison 'up to the convergence tolerance': the library's fixed
+    points stop at an absolute change of 1e-12, which is amplified by the number
+    of remaining iterations, so small values carry an absolute error."""
+    try:
+        return abs(have - want) <= rel * abs(want) + abs_
+    except TypeError:
+        return False
